@@ -1,4 +1,5 @@
 import StepModel.P21SafePass2Lemmas
+import StepModel.P21SafeSteps2
 /-! The readers only move the get pointer (helper file for Props/C05): the input — what is behind the get pointer, reversed,
 followed by what is in front of it — is the same list of bytes after every primitive and every modelled loop.  Together with
 "the rest does not grow" this makes the rest after a reader a suffix of the rest before it. -/
@@ -743,5 +744,112 @@ theorem dataSecLoop_whole (comment : IS → Out LoopRes) (hc : Keeps comment) : 
 
 theorem findDataSection_keeps (cm : Bool) (iters fuel : Nat) : Keeps (findDataSection cm iters fuel) :=
   fun s r h => dataSecLoop_whole _ (readComment_keeps cm iters fuel) fuel s 0 r h
+
+
+/-! ### the cost of the scan that ends at the first `;`: the bytes before it, nothing of what follows -/
+
+/-- the inner loop of the scan that ends at the first `;`, on any record tail `a ;` (parentheses and apostrophes allowed):
+it ends at the `;` (put back), or behind the first `)` of `a` -/
+theorem recoverInner_first_semi_cost (a : List Byte) : ∀ (pre b : List Byte) (sk : Bool) (c : Byte) (q : Bool) (len steps fuel : Nat),
+    (∀ x ∈ a, x ≠ chSemi) → c ≠ chRParen → a.length + 1 ≤ fuel →
+    (∃ p' l' st', recoverInner true false fuel ⟨pre, a ++ chSemi :: b, false, false, sk⟩ c q len steps =
+        .ok (⟨p', chSemi :: b, false, false, sk⟩, chSemi, q, true, l', st') ∧ st' ≤ steps + a.length + 1) ∨
+    (∃ p' a2 l' st', recoverInner true false fuel ⟨pre, a ++ chSemi :: b, false, false, sk⟩ c q len steps =
+        .ok (⟨p', a2 ++ chSemi :: b, false, false, sk⟩, chRParen, q, false, l', st') ∧ a2.length < a.length ∧ (∀ x ∈ a2, x ≠ chSemi) ∧
+        st' + a2.length ≤ steps + a.length) := by
+  induction a with
+  | nil =>
+    intro pre b sk c q len steps fuel _ hc hf
+    obtain ⟨f, rfl⟩ : ∃ f, fuel = f + 1 := ⟨fuel - 1, by omega⟩
+    left
+    refine ⟨pre, len + 1, steps + 1, ?_, by simp⟩
+    unfold recoverInner
+    simp [IS.good, IS.get, IS.putback, hc]
+  | cons x a ih =>
+    intro pre b sk c q len steps fuel ha hc hf
+    obtain ⟨f, rfl⟩ : ∃ f, fuel = f + 1 := ⟨fuel - 1, by simp at hf; omega⟩
+    have hx := ha x (by simp)
+    have hget : IS.get ⟨pre, x :: (a ++ chSemi :: b), false, false, sk⟩ = (⟨x :: pre, a ++ chSemi :: b, false, false, sk⟩, some x) := by
+      simp [IS.get, IS.good]
+    by_cases hxp : x = chRParen
+    · subst hxp
+      right
+      obtain ⟨f', rfl⟩ : ∃ f', f = f' + 1 := ⟨f - 1, by simp at hf; omega⟩
+      refine ⟨chRParen :: pre, a, len + 1, steps + 1, ?_, by simp, fun y hy => ha y (by simp [hy]), by simp; omega⟩
+      unfold recoverInner
+      simp only [List.cons_append, hget]
+      simp [IS.good, hc, hx]
+      unfold recoverInner
+      simp [IS.good]
+    · rcases ih (x :: pre) b sk x q (len + 1) (steps + 1) f (fun y hy => ha y (by simp [hy])) hxp (by simp at hf; omega) with
+        ⟨p', l', st', h, hst⟩ | ⟨p', a2, l', st', h, h2, h3, hst⟩
+      · left
+        refine ⟨p', l', st', ?_, by simp; omega⟩
+        unfold recoverInner
+        simp only [List.cons_append, hget]
+        simp [IS.good, hc, hx, h]
+      · right
+        refine ⟨p', a2, l', st', ?_, by simp; omega, h3, by simp; omega⟩
+        unfold recoverInner
+        simp only [List.cons_append, hget]
+        simp [IS.good, hc, hx, h]
+
+/-- the scan that ends at the first `;` never reads past it: on **any** record tail `a ;` — parentheses, apostrophes, white
+space, whatever character `c` the read gave up on — it ends with the `;` next on a good stream -/
+theorem recoverOuter_first_semi_cost (b : List Byte) (sk : Bool) : ∀ (fuel : Nat) (a pre : List Byte) (c : Byte) (q : Bool) (len steps : Nat),
+    (∀ x ∈ a, x ≠ chSemi) → a.length + 2 ≤ fuel →
+    ∃ p' l' st', recoverOuter true false true fuel ⟨pre, a ++ chSemi :: b, false, false, sk⟩ c q len steps =
+      .ok ⟨⟨p', chSemi :: b, false, false, sk⟩, 1, l', st'⟩ ∧ st' ≤ steps + a.length + 1 := by
+  intro fuel
+  induction fuel with
+  | zero => intro a pre c q len steps _ h; omega
+  | succ f ih =>
+    intro a pre c q len steps ha hf
+    -- after a `)`: white space, one character
+    have after : ∀ (p1 a2 : List Byte) (q1 : Bool) (l1 st1 : Nat), (∀ x ∈ a2, x ≠ chSemi) → a2.length ≤ a.length →
+        ∃ p' l' st',
+          (if ((IS.ws ⟨p1, a2 ++ chSemi :: b, false, false, sk⟩).get).2.getD chRParen = chSemi then
+            Out.ok (⟨if true = true then ((IS.ws ⟨p1, a2 ++ chSemi :: b, false, false, sk⟩).get).1.putback chSemi
+                     else ((IS.ws ⟨p1, a2 ++ chSemi :: b, false, false, sk⟩).get).1, 1, l1 + 1, st1 + 1⟩ : LoopRes)
+          else recoverOuter true false true f ((IS.ws ⟨p1, a2 ++ chSemi :: b, false, false, sk⟩).get).1
+            (((IS.ws ⟨p1, a2 ++ chSemi :: b, false, false, sk⟩).get).2.getD chRParen)
+            (if (true && false && ((IS.ws ⟨p1, a2 ++ chSemi :: b, false, false, sk⟩).get).1.good &&
+                decide (((IS.ws ⟨p1, a2 ++ chSemi :: b, false, false, sk⟩).get).2.getD chRParen = chQuote)) = true then !q1 else q1)
+            (l1 + 1) (st1 + 1)) = .ok ⟨⟨p', chSemi :: b, false, false, sk⟩, 1, l', st'⟩ ∧ st' ≤ st1 + a2.length + 1 := by
+      intro p1 a2 q1 l1 st1 h2 hl2
+      obtain ⟨p2, a3, hsp, hl3, h3⟩ := skipSpaces_semi a2 p1 b h2
+      have hws : IS.ws ⟨p1, a2 ++ chSemi :: b, false, false, sk⟩ = ⟨p2, a3 ++ chSemi :: b, false, false, sk⟩ := by
+        simp [IS.ws, IS.good, hsp]
+      rw [hws]
+      cases a3 with
+      | nil =>
+        refine ⟨p2, l1 + 1, st1 + 1, ?_, by omega⟩
+        simp [IS.get, IS.good, IS.putback]
+      | cons y a4 =>
+        have hy := h3 y (by simp)
+        have hg : IS.get ⟨p2, (y :: a4) ++ chSemi :: b, false, false, sk⟩ = (⟨y :: p2, a4 ++ chSemi :: b, false, false, sk⟩, some y) := by
+          simp [IS.get, IS.good]
+        rw [hg]
+        simp only [Option.getD_some, hy, if_false, Bool.and_false, Bool.false_and, Bool.false_eq_true]
+        obtain ⟨p', l', st', hr, hst⟩ := ih a4 (y :: p2) y q1 (l1 + 1) (st1 + 1) (fun z hz => h3 z (by simp [hz])) (by simp at hl3; omega)
+        exact ⟨p', l', st', hr, by simp at hl3; omega⟩
+    unfold recoverOuter
+    simp only [IS.good, Bool.not_false, Bool.and_self, Bool.not_true, Bool.false_eq_true, if_false]
+    by_cases hc : c = chRParen
+    · subst hc
+      have hin : recoverInner true false (f + 1) ⟨pre, a ++ chSemi :: b, false, false, sk⟩ chRParen q len steps =
+          .ok (⟨pre, a ++ chSemi :: b, false, false, sk⟩, chRParen, q, false, len, steps) := by
+        unfold recoverInner; simp [IS.good]
+      rw [hin]
+      simp only [IS.good, Bool.not_false, Bool.and_self, Bool.false_eq_true, if_false, beq_self_eq_true, if_true, Bool.true_and]
+      obtain ⟨p', l', st', hr, hst⟩ := after pre a q len steps ha (Nat.le_refl _)
+      exact ⟨p', l', st', hr, by omega⟩
+    · rcases recoverInner_first_semi_cost a pre b sk c q len steps (f + 1) ha hc (by omega) with ⟨p', l', st', h, hst⟩ | ⟨p', a2, l', st', h, h2, h3, hst⟩
+      · rw [h]
+        exact ⟨p', l', st', by simp, hst⟩
+      · rw [h]
+        simp only [IS.good, Bool.not_false, Bool.and_self, Bool.false_eq_true, if_false, beq_self_eq_true, if_true, Bool.true_and]
+        obtain ⟨p'', l'', st'', hr, hst2⟩ := after p' a2 q l' st' h3 (by omega)
+        exact ⟨p'', l'', st'', hr, by omega⟩
 
 end StepModel.P21Safe
